@@ -15,7 +15,9 @@
 (* Properties checked on the model: Tiles / EOFAtEnd / ErrLineOK / PosSane (C16) and Progress (C08). *)
 (* The reachable (input, token stream) pairs are exported and compared with the real lexer.          *)
 EXTENDS Naturals, Integers, Sequences, FiniteSets, TLC, Json
-CONSTANTS Alphabet, MaxLen, Variant
+CONSTANTS Alphabet, MaxLen, Variant, Prefix
+\* Prefix: bytes committed before the lazy feeding starts (<<>> = every input up to MaxLen; a keyword-rich prefix such as
+\* <<"t","a","s","k","sp","a","lp">> with MaxLen = Len(Prefix) + 3 carries the exhaustive exploration into task heads and bodies)
 \* bytes of lookahead a label may inspect
 Need(f) == IF f = "Start1" THEN (IF Variant = "fixed" THEN 6 ELSE 4)
            ELSE IF f \in {"Cmds", "String"} THEN 4 ELSE 2
@@ -33,8 +35,9 @@ N == Len(inp)
 \* ---------- primitives (pure, on explicit arguments) ----------
 Dec(p) == IF p >= N THEN [r |-> "ERR", w |-> 0]
           ELSE LET b == inp[p + 1] IN
-               IF b = "E1" /\ p + 1 < N /\ inp[p + 2] = "E2" THEN [r |-> "EE", w |-> 2]
-               ELSE IF b = "F1" /\ p + 1 < N /\ inp[p + 2] = "F2" THEN [r |-> "EE", w |-> 2]     \* a second two-byte letter
+               \* a lead byte (E1 = C3, F1 = D7) followed by a continuation byte (E2 = A9, F2 = 90) is one two-byte rune, and all
+               \* four combinations are letters (U+00E9, U+00D0, U+05E9, U+05D0)
+               IF b \in {"E1", "F1"} /\ p + 1 < N /\ inp[p + 2] \in {"E2", "F2"} THEN [r |-> "EE", w |-> 2]
                ELSE IF b \in {"E1", "E2", "F1", "F2", "bad"} THEN [r |-> "ERR", w |-> 1]
                ELSE [r |-> b, w |-> 1]
 ByteAt(p) == IF p < N THEN inp[p + 1] ELSE "EOF"
@@ -188,7 +191,7 @@ String == /\ fn = "String" /\ Ready
              ELSE IF AtEOLv(p1) THEN Fail(BackLine(p1, Dec(p1).w, ln1))         \* stale width from peek
              ELSE Set("String", "", start, p1, ln1, sline, Dec(p1).w, toks)
 
-Init == /\ inp = <<>> /\ closed = FALSE /\ fn = "Start0" /\ cont = ""
+Init == /\ inp = Prefix /\ closed = FALSE /\ fn = "Start0" /\ cont = ""
         /\ start = 0 /\ pos = 0 /\ line = 1 /\ sline = 1 /\ width = 0 /\ toks = <<>>
 LexStep == \/ WS \/ Start0 \/ Start1 \/ Hash \/ Comment \/ TaskKw \/ TaskNameLoop \/ TaskNameAfter
            \/ LParen \/ Args1 \/ RParen \/ RParenAfter \/ OutOp \/ OutOpAfter \/ LBrace \/ Body0 \/ Body1
